@@ -77,7 +77,10 @@ def shower_job(job):
     from nuspacesim.simulation.eas_radio.radio import EASRadio
     from nuspacesim.simulation.eas_radio.radio_antenna import calculate_snr
     rng = np.random.default_rng(job["seed"])
-    cfg, (beta, alt, ln, theta, path, Esh) = shower_inputs(job["spec"], job["seed"], job["n"])
+    cfg, (beta, alt, ln, theta, path, Esh) = shower_inputs(job["spec"], job["seed"], job["n"] if not job.get("exact") else 40 * job["n"])
+    if job.get("exact"):
+        # exactly this many events in the batch
+        beta, alt, ln, theta, path, Esh = (x[: job["n"]].copy() for x in (beta, alt, ln, theta, path, Esh))
     n = len(beta)
     if n == 0:
         return []
@@ -98,6 +101,12 @@ def shower_job(job):
         alt[7], beta[7], ln[7] = -0.5, 0.005, 1.0
         alt[8], ln[8] = -1e-13, 2.0
         alt[9], beta[9], ln[9] = -3.0, 1e-9, 0.5
+    if n > 16:
+        # masked-out rows at STEEP emergence angles (zenith below 55 deg: the corner of the waveform table with missing nodes), below and above
+        alt[10], beta[10], ln[10] = -1.0, float(np.radians(40.0)), 3.0
+        alt[11], beta[11], ln[11] = -0.2, float(np.radians(36.0)), 1.0
+        alt[12], beta[12], ln[12] = 15.0, float(np.radians(41.0)), 25.0
+        alt[13], beta[13] = min(alt[13], 9.0) if alt[13] >= 0 else 5.0, float(np.radians(39.0))      # in range, steep
     r = cfg.detector.radio
     band = (r.low_frequency, r.high_frequency)
     h, N, gain = cfg.detector.initial_position.altitude, r.nantennas, r.gain
@@ -127,10 +136,15 @@ def shower_job(job):
         s3 = calculate_snr(ef3, band, h, N, gain)
         sN1 = calculate_snr(ef1, band, h, 3, gain)
         sN4 = calculate_snr(ef1, band, h, 12, gain)
+        # the SNR of an event in the permuted batch, and of the event evaluated alone: the same number
+        sp_ = np.asarray(calculate_snr(efp, band, h, N, gain), dtype=float)
+        sperm = np.empty_like(sp_)
+        sperm[order] = sp_
+        salone = np.array([float(np.asarray(calculate_snr(ef1[i:i + 1], band, h, N, gain), dtype=float).reshape(-1)[0]) for i in range(n)])
     ev = []
     for i in range(n):
         ev.append({"kind": "shower", "alt": bits(alt[i]), "lenDec": bits(ln[i]), "ef1": bits_array(ef1[i]), "ef3": bits_array(ef3[i]),
-                   "snr1": bits(s1[i]), "snr3": bits(s3[i]), "snrN1": bits(sN1[i]), "snrN4": bits(sN4[i]), "perm": bits_array(back[i]),
+                   "snr1": bits(s1[i]), "snr3": bits(s3[i]), "snrN1": bits(sN1[i]), "snrN4": bits(sN4[i]), "snrPerm": bits(sperm[i]), "snrAlone": bits(salone[i]), "perm": bits_array(back[i]),
                    "_m": {"spec": job["spec"], "alt": float(alt[i]), "lenDec": float(ln[i]), "lenDec_is_zero": bool(ln[i] == 0.0), "snr": float(s1[i]),
                           "field_max": float(np.nanmax(np.abs(ef1[i]))) if np.isfinite(ef1[i]).any() else float("nan")}})
     return ev
@@ -232,6 +246,9 @@ def run(tier="quick", seed=0):
         for rep in range(3 if thorough else 1):
             jobs.append({"t": "shower", "spec": s, "seed": seed * 10 + i + 100 * rep, "n": 300 if thorough else 120, "c": [0.21, 0.5, 0.83][rep]})
     jobs.append({"t": "shower", "spec": specs[0], "seed": seed * 10 + 77, "n": 60, "c": 0.41, "int_energy": True})
+    # batches with as many events as the band has 10 MHz bins (a SQUARE field array), one fewer and one more
+    for nb in (26, 27, 28):
+        jobs.append({"t": "shower", "spec": specs[1], "seed": seed * 10 + 90 + nb, "n": nb, "c": 0.63, "exact": True})
     jobs.append({"t": "scale", "spec": {"altitude": 33.0, "limb": 0.05, "log_e": 10.0}, "seed": seed + 7, "n": 200, "c": 0.37, "ncases": 240 if thorough else 60})
     res = par.pmap(_dispatch, jobs, workers=14)
     ev = [e for r in res for e in r]
